@@ -32,6 +32,21 @@ CHECKS = {
     text="MC_Load invariants TrimMeaning and IterMeaning over all menu files, both include_last settings and 1-2 ranks; 300/5000 generated traces with 0-3 steps, gaps, events at step boundaries are loaded with include_last_profiler_step on/off and TLC compares the kept ids with Kept(rows, incl), the iteration column with IterOf and the getters with the rows.",
     note="Domain adds: all ranks share the step numbers, step spans disjoint and positive (checked by TLC per record). Iteration of Event/Context Sync rows not asserted. " + TB,
     ref="DESIGN.md section 5 (C12)"),
+ "C14": dict(
+    technique="TLA+ signed-marker counter model (MC_Counters: every tie order of the sort, launch-first tie key) checked by TLC + TLC trace validation of queue-length / memory-bandwidth series and of the counter events read back from the *_with_counters file (Trace_Counters)",
+    text="TLC exhausts all multisets of <=3 (thorough 4) items on two keys with weights {1,2} on the grid 0..3 and every admissible row order, invariants NonNeg / EndOfInstant / EndsAtZero at every row; 300/4000 generated traces (launch = kernel start ties, zero-length copies, 1-3 ranks, rank subsets) are run through get_queue_length_time_series, get_memory_bw_time_series and generate_trace_with_counters and TLC checks every series row and every written counter event against CounterAt over the recorded frame.",
+    note="Bandwidths in generated files are multiples of 1/4 (exact after x64 scaling). " + TB,
+    ref="DESIGN.md section 5 (C14)"),
+ "C15": dict(
+    technique="TLA+ link model (MC_Links) checked by TLC + TLC trace validation of get_cuda_kernel_launch_stats rows against RequiredStats/OptionalStats (Counters.tla)",
+    text="The join the statistics rest on is the correlation link relation model-checked in MC_Links; 300/4000 generated traces (kernel, memcpy, memset launches, unrelated runtime calls, missing partners, rank subsets, include_memory_events on/off) are analysed by the real code and TLC compares the returned rows with one row per linked pair (durations, delay floored at 0).",
+    note="Driver-API / HIP launches are accepted both listed and unlisted. " + TB,
+    ref="DESIGN.md section 5 (C15)"),
+ "C06": dict(
+    technique="TLA+ model of the idle classification incl. the launch-time join (MC_Idle) checked by TLC + TLC trace validation of get_idle_time_breakdown (Trace_Counters, IdleSum / StreamSpanMinusBusy)",
+    text="TLC exhausts all strict-FIFO arrangements of 3 kernels on two streams (linked with any earlier launch start, or unlinked), every start of event 0 and thresholds {1,2}: invariants IdleMeaning, IdleAddsUp, UnlinkedNeverHostWait; 300/4000 generated traces with unlinked kernels, boundary gaps (threshold-1, threshold, 0), stream subsets and thresholds {1,2,5,30,31} through the real API, every (stream, category) sum and ratio checked by TLC.",
+    note="Domain: WellFormed rows and strict per-stream FIFO (no overlap, no shared start instant), re-evaluated by TLC per record. " + TB,
+    ref="DESIGN.md section 5 (C06)"),
 }
 
 NOT_YET = {}
